@@ -457,6 +457,8 @@ func (c *Cluster) Project() State {
 		}
 		switch {
 		case x.Status.Error == "":
+		case strings.Contains(x.Status.Error, "invalid node selector"):
+			s.Err = "selector"
 		case strings.Contains(x.Status.Error, "conflict"):
 			s.Err = "conflict"
 		case strings.Contains(x.Status.Error, "missing"):
